@@ -16,8 +16,8 @@ def hx(b):
 
 def run(ctx):
     quick = ctx.quick()
-    st = family_setup(ctx, PROPS, n_random=8 if quick else 40, tl2_random=False)
-    nhist = 10 if quick else 80
+    st = family_setup(ctx, PROPS, n_random=6 if quick else 40, tl2_random=False)
+    nhist = 6 if quick else 80
     stats = {"schemas": 0, "types": 0, "histories": 0, "steps": 0, "steps_tl1_valid": 0, "steps_tl1_mutated": 0, "steps_tl2": 0, "steps_json": 0,
              "steps_truncated_tl2_json": 0, "steps_reset": 0, "steps_after_failed_decode": 0, "kernel_rejected": 0, "model_compared_steps": 0,
              "go_fillrandom_values": 0, "budget_skips": 0}
@@ -68,7 +68,7 @@ def run(ctx):
         for (tid, boxed), o in zip(enc_meta, enc_out):
             if o.startswith("ok "):
                 pool[tid][boxed].append(o[3:])
-        rl = [f"rand1 {name} {rng.getrandbits(40)}" for tid, name, x in tops for _ in range(3)]
+        rl = [f"ofill {name} {rng.getrandbits(40)}" for tid, name, x in tops for _ in range(3)]
         rout = run_lines_resilient(u.gen.exe, [], rl, timeout=300, max_restarts=40)
         tid_of = {name: tid for tid, name, x in tops}
         for l, o in zip(rl, rout):
@@ -95,7 +95,9 @@ def run(ctx):
                         steps.append("1r:" + rng.choice(pool[tid][0])); ks.append("tl1_valid")
                     elif r < 0.62:
                         b = b"" if valid == "-" else bytes.fromhex(valid)
-                        steps.append("1b:" + hx(mutate_bytes(rng, b, tags))); ks.append("tl1_mutated")
+                        # without --checkLengthSanity a mutated count makes the reader allocate gigabytes (C08's subject): truncate only
+                        mb = mutate_bytes(rng, b, tags) if u.san else b[:rng.randrange(len(b) + 1)]
+                        steps.append("1b:" + hx(mb)); ks.append("tl1_mutated")
                     elif r < 0.72 and has_tl2(name):
                         steps.append("2:" + valid); ks.append("tl2")
                     elif r < 0.84:
@@ -130,7 +132,12 @@ def run(ctx):
                 if prev_failed:
                     s_["steps_after_failed_decode"] += 1
                 prev_failed = e[0] in ("eof", "reject")
-                if e[2] != "same":
+                if e[2].endswith(":fresh-json-panic"):
+                    # the reused object writes JSON, the fresh one panics: generated WriteJSONOpt dereferences the nil pointer of a
+                    # non-optional recursive field that nothing has allocated yet
+                    ubad.append((u.name, l, g, f"C09:F16:json-write-nil-recursive-field:{name}",
+                                 f"step {i} ({k}): the fresh object's JSON writer panics (nil recursive field), the reused object writes"))
+                elif e[2] != "same":
                     ubad.append((u.name, l, g, f"C09:reuse:{u.name}:{name}:{e[2].split(':')[1]}",
                                  f"step {i} ({k}) into the reused object differs from a fresh object ({e[2]})"))
                 if me[i] != ["-"] and e[0] != "na":
